@@ -90,3 +90,38 @@ Proof.
   - now rewrite chunk_at_set_other.
 Qed.
 End LM.
+
+(* ---- converse: the only record a write adds to the log is its own ---- *)
+Definition log_adds (b b' : bucket) (r : drec) : Prop :=
+  forall q r0, log_find b' q = Some r0 -> r0 = r \/ log_find b q = Some r0.
+
+Lemma append_record_only cf b r : layout_ok b -> log_adds b (fst (append_record cf b r)) r.
+Proof.
+  intros [Hok Habove] q r0. unfold append_record.
+  destruct (c_filemax cf <? k_whead (chunk_at b (b_head b)) + dsize r) eqn:Erot; cbn [fst].
+  - set (b0 := set_head b (S (b_head b))). set (b1 := flush_chunk b0 (b_head b)).
+    assert (Hh1 : b_head b1 = S (b_head b)) by (unfold b1; rewrite (proj1 (flush_chunk_misc b0 (b_head b))); reflexivity).
+    assert (Hnew : chunk_at b1 (b_head b1) = chunk0).
+    { rewrite Hh1. unfold b1. rewrite flush_chunk_eq. destruct (k_wbuf (chunk_at b0 (b_head b))).
+      - apply Habove. lia.
+      - rewrite chunk_at_set_other by lia. apply Habove. lia. }
+    rewrite Hnew. unfold log_find. destruct (Nat.eq_dec (b_head b1) (p_chunk q)) as [E|Hne].
+    + rewrite <- E, chunk_at_set_same. unfold all_recs. cbn [k_disk k_wbuf chunk0 app find_off].
+      destruct (0 =? p_off q); [|discriminate]. intros H; injection H as <-. now left.
+    + rewrite chunk_at_set_other by exact Hne. fold (log_find b1 q). unfold b1. rewrite flush_chunk_log. intros H. now right.
+  - set (k := chunk_at b (b_head b)).
+    change (mkChunk (k_exists k) (k_disk k) (k_fsize k) (k_wbuf k ++ [(k_whead k, r)])
+                    (k_whead k + dsize r) (k_whead k + dsize r) (k_rewriting k)) with (chunk_append k r).
+    unfold log_find. destruct (Nat.eq_dec (b_head b) (p_chunk q)) as [E|Hne].
+    + rewrite <- E, chunk_at_set_same, chunk_append_find by apply Hok. fold k.
+      destruct (find_off (all_recs k) (p_off q)); [intros H; now right|].
+      destruct (k_whead k =? p_off q); [|discriminate]. intros H; injection H as <-. now left.
+    + rewrite chunk_at_set_other by exact Hne. intros H. now right.
+Qed.
+
+Lemma bkt_set_only cf b h r vh : layout_ok b -> log_adds b (bkt_set cf b h r vh) r.
+Proof.
+  intros Hlay q r0. unfold bkt_set. pose proof (append_record_only cf b r Hlay q r0) as H.
+  destruct (append_record cf b r) as [b1 p]. cbn [fst] in H.
+  rewrite (log_find_dat _ b1); [exact H|]. rewrite hints_set_dat. reflexivity.
+Qed.
